@@ -1,6 +1,60 @@
-import DdsModel.Drv.Util
+import DdsModel.Decoder
+import DdsModel.Drv.C02
 namespace Dds.Drv
+open Dds
 
-def runC08 (_line : String) : String := "not-modelled"
+def parseDecOp (s : String) : Option DecOp :=
+  match splitColon s with
+  | ["r", w, h] => do some (.read (← nat? w) (← nat? h))
+  | ["x", ox, oy, w, h] => do some (.readRect (← nat? ox) (← nat? oy) (← nat? w) (← nat? h))
+  | ["s"] => some .skipSurface
+  | ["m"] => some .skipMipmaps
+  | ["p"] => some .rewindPrev
+  | ["0"] => some .rewindStart
+  | ["c", w, h] => do some (.readCubeMap (← nat? w) (← nat? h))
+  | _ => none
+
+def decResName : DecRes → String
+  | .ok => "ok"
+  | .noMoreSurfaces => "NoMoreSurfaces"
+  | .unexpectedSurfaceSize => "UnexpectedSurfaceSize"
+  | .rectOutOfBounds => "RectOutOfBounds"
+  | .cannotSkipMipmapsInVolume => "CannotSkipMipmapsInVolume"
+  | .notACubeMap => "NotACubeMap"
+  | .memoryLimitExceeded => "MemoryLimitExceeded"
+  | .panic => "panic"
+
+def fmtInfo (d : Dec) : String :=
+  match d.iter.currentP with
+  | none => "panic"
+  | some none => "- done"
+  | some (some s) => s!"{s.w},{s.h},{s.len},{if s.level ≠ 0 then 1 else 0} more"
+
+def fmtCells (c : List (Nat × Nat)) : String :=
+  if c.isEmpty then "" else " cells=" ++ ",".intercalate (c.map fun (x, y) => s!"{x}.{y}")
+
+def runOps (d : Dec) : List DecOp → List String → List String
+  | [], acc => acc.reverse
+  | op :: rest, acc =>
+    let (d', r, cells) := d.step op
+    runOps d' rest (s!"{decResName r} {fmtInfo d'} {d'.pos}{fmtCells cells}" :: acc)
+
+def runC08 (line : String) : String :=
+  match toks line with
+  | "D" :: rest =>
+    match parseHeaderLine rest with
+    | none => "bad-case"
+    | some (hd, px, rest) =>
+      match rest with
+      | [] => "bad-case"
+      | _fmt :: ops =>
+        match ops.mapM parseDecOp, layoutOf hd px with
+        | none, _ => "bad-case"
+        | _, none => "panic"
+        | _, some (.error e) => s!"err {errName e}"
+        | some ops, some (.ok L) =>
+          let d := Dec.new L
+          " | ".intercalate (s!"new {fmtInfo d} {d.pos}" :: runOps d ops [])
+  | _ => "bad-case"
 
 end Dds.Drv
